@@ -5,8 +5,8 @@ Model of `pybtex/bibtex/bst.py`, function by function.
   ---------------------------------------------  -----------------------------------------
   `strip_comment(line)`                          `stripComment` (loop = `stripGo in_string`)
   `BstParser.LBRACE/RBRACE/STRING/INTEGER/NAME`  `lbracePat … namePat`
-  `BstParser.COMMANDS[name.upper()]`             `cmdArityM` over `Gen.bstCommands` (regenerated)
-  `process_int_literal` …                        `processIntLiteral` …
+  `BstParser.COMMANDS[name.translate(ASCII_UPPER)]` `cmdArityM` over `Gen.bstCommands` (regenerated)
+  `process_int_literal` …                        `processIntLiteral` …, `mkLiteralE` (`int()` digit limit)
   `BstParser.parse_group`                        `parseGroupF` (fuel = remaining length + 1)
   `BstParser.parse_command`                      `parseCommand` / `parseGroups`
   `list(BstParser(text).parse())`                `parseText`
@@ -21,6 +21,18 @@ NOTE (candidate defect #25, `proposed_fixes/C15-1.diff`, repaired in /repo by 52
 had fewer groups than its arity (unless the text ended there, in which case it raised
 `PrematureEOF`).  Such a text is malformed and the property demands a syntax error; the model
 follows the repaired code, which `require`s the brace.
+
+NOTE (`proposed_fixes/C15-2.diff`): the pinned tree upper-cased the command name with `str.upper()`
+and matched integers with `\d`, both Unicode-aware: `ſORT`, `ıTERATE {f}` were accepted as commands
+(the interpreter then prints "Unknown command") and `#٣` was `Integer(3)`.  The model follows the
+repaired code: ASCII-only upper-casing (`upper` of `Model/Basic.lean`), `[0-9]` (`isDigit`).
+
+NOTE (`proposed_fixes/C15-3.diff`): `int()` raises `ValueError` for a literal of more than
+`sys.get_int_max_str_digits()` digits; the repaired `parse_group` turns it into
+`PybtexSyntaxError('integer literal too long')` on the line of the literal (`mkLiteralE`).
+
+`tokEq` / `progEq` model the `==` of the parse results (`Variable.__eq__`, `Function.__eq__`,
+`list.__eq__`).
 -/
 import PybtexModel.Model.Scanner
 import PybtexModel.Spec.Bst
@@ -117,6 +129,19 @@ def mkLiteral : TokKind → Str → Tok
   | .integer, v => processIntLiteral v
   | _, v => processIdentifier v
 
+/-- `int(value.strip('#'))` raises `ValueError`: the literal has more decimal digits than the
+interpreter converts (`Gen.intMaxStrDigits`, regenerated; 0 = no limit).  The sign does not count,
+leading zeros do. -/
+def intTooLong (value : Str) : Bool :=
+  Gen.intMaxStrDigits != 0 && decide (Gen.intMaxStrDigits < (value.filter isDigit).length)
+
+/-- the `try: yield LITERAL_TYPES[...](token.value) except ValueError: raise PybtexSyntaxError(...)`
+of the repaired `parse_group`; `line` = `self.lineno` when the token has been read -/
+def mkLiteralE (k : TokKind) (v : Str) (line : Nat) : Except Err Tok :=
+  if k = .integer ∧ intTooLong v = true then
+    .error (.syntaxError "integer literal too long".toList line)
+  else .ok (mkLiteral k v)
+
 /-! ### The parser proper -/
 
 /-- `list(self.parse_group())`: tokens up to the matching `}`.  Every turn of the loop consumes
@@ -136,9 +161,12 @@ def parseGroupF : Nat → St → Except Err (List Tok × St)
         | .ok (ts, st3) => .ok (.fn body :: ts, st3)
     | .ok ((.rbrace, _), st1) => .ok ([], st1)
     | .ok ((k, v), st1) =>
-      match parseGroupF fuel st1 with
+      match mkLiteralE k v st1.line with
       | .error e => .error e
-      | .ok (ts, st2) => .ok (mkLiteral k v :: ts, st2)
+      | .ok t =>
+        match parseGroupF fuel st1 with
+        | .error e => .error e
+        | .ok (ts, st2) => .ok (t :: ts, st2)
 
 def parseGroup (st : St) : Except Err (List Tok × St) := parseGroupF (st.rest.length + 1) st
 
@@ -156,7 +184,8 @@ def parseGroups : Nat → St → Except Err (List (List Tok) × St)
         | .error e => .error e
         | .ok (gs, st3) => .ok (g :: gs, st3)
 
-/-- `self.COMMANDS[command_name.upper()]` over the table regenerated from /repo (`none` = `KeyError`) -/
+/-- `self.COMMANDS[command_name.translate(ASCII_UPPER)]` over the table regenerated from /repo
+(`none` = `KeyError`); `upper` maps the 26 ASCII letters only -/
 def cmdArityM (name : Str) : Option Nat := Gen.bstCommands.lookup (upper name)
 
 /-- `list(self.parse_command())` -/
@@ -202,5 +231,38 @@ def parseStream (src : Str) : Except Err Program := parseText (streamText (strea
 
 /-- `parse_file` on a file whose decoded content is `src` (universal newlines) -/
 def parseFile (src : Str) : Except Err Program := parseStream (universalNewlines src)
+
+/-! ### `==` on parse results -/
+
+mutual
+  /-- `Variable.__eq__` (`type(self) == type(other) and self._value == other._value`) and
+  `Function.__eq__` (`type(self) == type(other) and self.body == other.body`) -/
+  def tokEq : Tok → Tok → Bool
+    | .int a, .int b => a == b
+    | .str a, .str b => a == b
+    | .quoted a, .quoted b => a == b
+    | .name a, .name b => a == b
+    | .fn a, .fn b => toksEq a b
+    | _, _ => false
+  /-- `list.__eq__` on token lists -/
+  def toksEq : List Tok → List Tok → Bool
+    | [], [] => true
+    | a :: as, b :: bs => tokEq a b && toksEq as bs
+    | _, _ => false
+end
+
+def groupsEq : List (List Tok) → List (List Tok) → Bool
+  | [], [] => true
+  | a :: as, b :: bs => toksEq a b && groupsEq as bs
+  | _, _ => false
+
+/-- `[name, group, …] == [name', group', …]` -/
+def cmdEq (c d : Command) : Bool := c.name == d.name && groupsEq c.groups d.groups
+
+/-- `list(parse_string(a)) == list(parse_string(b))` on the parsed programs -/
+def progEq : Program → Program → Bool
+  | [], [] => true
+  | c :: p, d :: q => cmdEq c d && progEq p q
+  | _, _ => false
 
 end Pybtex.Bst
